@@ -18,6 +18,7 @@ type Chunk struct {
 	T      *Tables
 	Lines  []M
 	Traces []*TraceRef
+	Tour   *TourInfo
 }
 
 // TraceRef keeps what is needed to attribute a failing line to a replayable execution.
@@ -205,6 +206,23 @@ func (c *Chunk) Judge(mod string, timeout time.Duration) *JudgeResult {
 
 // locate maps a chunk line to (trace, event index).
 func (c *Chunk) locate(line int) (*TraceRef, int) {
+	if c.Tour != nil {
+		if _, ok := c.Tour.Event[line]; ok {
+			var path []M
+			for l := line; l != 0; l = c.Tour.Parent[l] {
+				path = append([]M{c.Tour.Event[l]}, path...)
+			}
+			evs := append(initEvents(), path...)
+			for _, e := range evs[:3] {
+				annotate(c.T, e)
+			}
+			contents := map[string][]byte{}
+			for _, b := range c.Tour.Conc {
+				contents[c.T.Content(b)] = b
+			}
+			return &TraceRef{Label: "tour", Events: evs, Contents: contents, TZ0: c.Tour.TZ, ObsSpec: c.Tour.Obs}, len(evs) - 1
+		}
+	}
 	for _, tr := range c.Traces {
 		if line >= tr.First && line <= tr.Last {
 			for i, sl := range tr.StepLine {
